@@ -227,7 +227,7 @@ class Verdict:
         coverage['drift_count'] = len(self.drift)
         coverage['known_findings_hit'] = sorted(self.known_hits)
         coverage['notes'] = self.notes[:20]
-        if not self.keep:
+        if not self.keep and not os.environ.get('VERIF_NO_EVIDENCE'):
             write_evidence(self.pid, self.tier, self.seed, coverage, wall, len(self.violations), assumptions)
         for d in self.drift[:10]:
             log(f'SPEC-DRIFT property={self.pid} {json.dumps(d)[:400]}')
